@@ -87,7 +87,17 @@ def run_table(case):
     M = np.array(case['lattice']['matrix'])
     rows = [tuple(r) for r in case['rows']]
     sites = cases.sites_structure(M, case['sites']['frac'], case['sites']['labels'])
-    stub = JumpsStub(make_table(rows))
+    table = make_table(rows)
+    im = case.get('index_mode', 'range')
+    if im != 'range':
+        # the table may come with any row labels (a filtered / concatenated / label-preserving sorted frame)
+        if 'sorted' in im:
+            table = table.sort_values(['stop time', 'start time'])
+        if 'shifted' in im:
+            table.index = table.index + 7
+        elif 'reversed' in im:
+            table.index = list(range(len(table)))[::-1]
+    stub = JumpsStub(table)
     coll = gcall(Collective, jumps=stub, sites=sites, lattice=cases.lattice(case['lattice']), max_steps=case['window'], max_dist=case['cutoff'])
     must, behind = check_collective(coll, rows, case['sites']['frac'], M, case['window'], case['cutoff'])
     spm = np.asarray(gcall(coll.site_pair_count_matrix))
@@ -164,13 +174,15 @@ def table_cases(draw, tier):
     dd = sorted(set(np.round(D[np.triu_indices(S, 1)], 6).tolist()))
     cutoff = draw(st.one_of(st.floats(0.3, 5.0), st.sampled_from(dd).map(lambda x: x + 0.05), st.sampled_from(dd).map(lambda x: max(0.05, x - 0.05))))
     order = draw(st.permutations(list(range(len(rows)))))
-    return {'lattice': lat, 'sites': {'frac': sites['frac'], 'labels': sites['labels']}, 'rows': [rows[k] for k in order], 'window': window, 'cutoff': float(cutoff)}
+    index_mode = draw(st.sampled_from(['range', 'range', 'shifted', 'reversed', 'sorted', 'sorted-shifted', 'sorted-reversed']))
+    return {'index_mode': index_mode, 'lattice': lat, 'sites': {'frac': sites['frac'], 'labels': sites['labels']}, 'rows': [rows[k] for k in order], 'window': window, 'cutoff': float(cutoff)}
 
 
 @st.composite
 def pipeline_cases(draw, tier):
     c = draw(gen.hop_systems(tier=tier, min_sites=2, max_sites=5, max_diff=3, max_frames=16 if tier == 'quick' else 40))
     c['cutoff'] = draw(st.sampled_from([1, 1, 2.5, 6.0]))
+    c['sites_cell_scale'] = draw(st.sampled_from([1.0, 1.0, 0.96, 1.04]))
     return c
 
 
